@@ -154,7 +154,7 @@ func oracle(c core.Case, out []string) []core.Finding {
 		case "blk":
 			t, _ := strconv.ParseInt(m["t"], 10, 64)
 			vs, _ := parseVals(m["vals"])
-			o.blks = append(o.blks, blkDef{t, vs})
+			o.blks = append(o.blks, blkDef{t: t, vals: vs})
 			continue
 		case "ev":
 			e := &oev{id: m["id"], kind: m["kind"], m: m, hash: m["hash"]}
@@ -175,6 +175,10 @@ func oracle(c core.Case, out []string) []core.Finding {
 		}
 		size, pend, comm, ok := parseView(out[i])
 		if !ok || res == "dead" {
+			continue
+		}
+		if res == "panic" && (f[0] == "add" || f[0] == "check") {
+			add("pool."+f[0]+".panics-on-evidence", fmt.Sprintf("verifying evidence crashed instead of rejecting it (op %q): a block or a peer message carrying it takes the node's consensus / peer routine down", op))
 			continue
 		}
 		if res == "panic" {
@@ -215,6 +219,18 @@ func oracle(c core.Case, out []string) []core.Finding {
 			}
 			if good && !has(prePend, e.key) && (!admitted || res != "ok") {
 				add("pool.AddEvidence.rejects-valid."+e.kind, fmt.Sprintf("AddEvidence did not admit valid, fresh, uncommitted evidence %s: %s", e.key, out[i]))
+			}
+			// light-client-attack evidence that is a genuine attack by construction must be admitted
+			// (independent of the code's own verdict): headers present, fresh, new
+			if e.kind == "lca" && !has(prePend, e.key) && !has(preComm, e.key) && !o.expired(e.h, e.t) && e.h >= 1 && e.h < o.storeH && !admitted {
+				cfh, _ := strconv.ParseInt(e.m["cfh"], 10, 64)
+				atk := strings.Split(e.m["tag"], ".")[0]
+				switch {
+				case e.m["gen"] == "1" && cfh < o.storeH:
+					add("pool.AddEvidence.rejects-valid.lca-"+atk, fmt.Sprintf("AddEvidence did not admit genuine %s evidence %s: %s", atk, e.key, out[i]))
+				case e.m["gen"] == "fwd" && cfh > o.storeH:
+					add("pool.AddEvidence.rejects-valid.lca-forward-lunatic", fmt.Sprintf("AddEvidence did not admit a genuine forward lunatic attack (conflicting height %d above the node's latest block %d, time not after it): %s", cfh, o.storeH, out[i]))
+				}
 			}
 			if res != "ok" && has(pend, e.key) && !has(prePend, e.key) {
 				add("pool.AddEvidence.error-but-pending", "AddEvidence returned an error yet the item became pending")
